@@ -1,5 +1,8 @@
 // ===== actix-server environment shared by the accept and worker units (TRUSTED BASE, DESIGN.md §3.2) =====
 
+/// number of listeners (= service factories) configured at build time: a ghost constant of the server
+pub uninterp spec fn n_listeners() -> usize;
+
 /// An accepted stream.  `origin()` is a ghost tag: the token of the listener it was accepted from.
 #[verifier::external_body]
 pub struct MioStream { _p: () }
@@ -31,7 +34,7 @@ impl WorkerHandleAccept {
     /// tokio unbounded channel: succeeds iff the receiver is alive, otherwise hands the value back
     #[verifier::external_body]
     pub fn send(&self, conn: Conn) -> (r: Result<(), Conn>)
-        requires conn.wf(),
+        requires conn.wf(), conn.token < n_listeners(),
         ensures r.is_ok() <==> self.alive(),
                 r matches Err(c) ==> c == conn,
     { unimplemented!() }
